@@ -550,7 +550,9 @@ def _dead_constant_stores(fn):
             if isinstance(v, list) and v and isinstance(v[0], ast.stmt) and not isinstance(n, ast.Lambda):
                 kept = [st for st in v if not (isinstance(st, ast.Assign) and len(st.targets) == 1 and isinstance(st.targets[0], ast.Name)
                                                and st.targets[0].id not in reads and st.targets[0].id not in glob
-                                               and isinstance(st.value, ast.Constant))]
+                                               and (isinstance(st.value, ast.Constant) or (
+                                                   isinstance(st.value, ast.Subscript) and isinstance(st.value.value, ast.Name)
+                                                   and st.value.value.id.startswith('_u') and isinstance(st.value.slice, ast.Constant))))]
                 if len(kept) != len(v):
                     setattr(n, fld, kept or [ast.Pass()])
                     changed = True
@@ -1062,6 +1064,132 @@ def _split_multi_defs(fn):
     return changed
 
 
+def _unpack_to_subscripts(fn):
+    """a, b = <call>     ->    t = <call>; a = t[0]; b = t[1]       (the call is assumed to return exactly that many items, as the
+    unpacking itself requires)"""
+    changed = False
+    k = [0]
+    for owner in ast.walk(fn):
+        for fld in ('body', 'orelse', 'finalbody'):
+            body = getattr(owner, fld, None)
+            if not (isinstance(body, list) and body and isinstance(body[0], ast.stmt)) or isinstance(owner, ast.Lambda):
+                continue
+            i = 0
+            while i < len(body):
+                st = body[i]
+                if isinstance(st, ast.Assign) and len(st.targets) == 1 and isinstance(st.targets[0], ast.Tuple) and isinstance(st.value, ast.Call) \
+                        and all(isinstance(e, ast.Name) for e in st.targets[0].elts) and len(st.targets[0].elts) >= 2:
+                    k[0] += 1
+                    t = '_u%d' % k[0]
+                    new = [ast.Assign(targets=[ast.Name(id=t, ctx=ast.Store())], value=st.value)]
+                    for j, e in enumerate(st.targets[0].elts):
+                        new.append(ast.Assign(targets=[ast.Name(id=e.id, ctx=ast.Store())],
+                                              value=ast.Subscript(value=ast.Name(id=t, ctx=ast.Load()), slice=ast.Constant(value=j), ctx=ast.Load())))
+                    for x in new:
+                        ast.copy_location(x, st)
+                        ast.fix_missing_locations(x)
+                    body[i:i + 1] = new
+                    i += len(new)
+                    changed = True
+                    continue
+                i += 1
+    return changed
+
+
+def _split_toplevel_reuse(fn):
+    """At the top level of the function body a name that is assigned several times by simple statements (a scratch name re-used for
+    unrelated values) is split: each assignment and the reads up to the next assignment get their own name.  Only when every store
+    to the name is such a top-level simple assignment."""
+    params = {a.arg for a in fn.args.posonlyargs + fn.args.args + fn.args.kwonlyargs}
+    top = fn.body
+    stores_top = {}
+    for i, st in enumerate(top):
+        if isinstance(st, ast.Assign) and len(st.targets) == 1 and isinstance(st.targets[0], ast.Name):
+            stores_top.setdefault(st.targets[0].id, []).append(i)
+    all_stores = {}
+    for n in ast.walk(fn):
+        if isinstance(n, ast.Name) and isinstance(n.ctx, (ast.Store, ast.Del)):
+            all_stores[n.id] = all_stores.get(n.id, 0) + 1
+        elif isinstance(n, (ast.Global, ast.Nonlocal)):
+            for x in n.names:
+                all_stores[x] = all_stores.get(x, 0) + 99
+    changed = False
+    k = 0
+    for nm, idxs in stores_top.items():
+        if len(idxs) < 2 or nm in params or all_stores.get(nm) != len(idxs):
+            continue
+        # reads before the first assignment would be reads of an unbound name: none in correct code
+        for pos, i in enumerate(idxs):
+            j = idxs[pos + 1] if pos + 1 < len(idxs) else len(top)
+            k += 1
+            new = '%s__t%d' % (nm, k)
+            top[i].targets[0].id = new
+            for st in top[i + 1:j]:
+                for x in ast.walk(st):
+                    if isinstance(x, ast.Name) and x.id == nm and isinstance(x.ctx, ast.Load):
+                        x.id = new
+            if j < len(top):
+                for x in ast.walk(top[j].value):
+                    if isinstance(x, ast.Name) and x.id == nm and isinstance(x.ctx, ast.Load):
+                        x.id = new
+        changed = True
+    return changed
+
+
+def _ssa_split(fn):
+    """A name bound by several plain assignments is split into one name per assignment when every read of it is reached by exactly
+    one of them (reaching definitions over the function's flow graph): a scratch name re-used for unrelated values becomes several
+    names, wherever the assignments are."""
+    from .cfg import CFG, ReachingDefs
+    from .astutil import link_parents
+    plain = {}
+    other = set()
+    params = {a.arg for a in fn.args.posonlyargs + fn.args.args + fn.args.kwonlyargs}
+    for n in ast.walk(fn):
+        if isinstance(n, ast.Assign) and len(n.targets) == 1 and isinstance(n.targets[0], ast.Name):
+            plain.setdefault(n.targets[0].id, []).append(n)
+    plain_targets = {id(st.targets[0]) for lst in plain.values() for st in lst}
+    for n in ast.walk(fn):
+        if isinstance(n, ast.Name) and isinstance(n.ctx, (ast.Store, ast.Del)) and id(n) not in plain_targets:
+            other.add(n.id)
+        elif isinstance(n, (ast.Global, ast.Nonlocal)):
+            other |= set(n.names)
+        elif isinstance(n, ast.ExceptHandler) and n.name:
+            other.add(n.name)
+    cands = [nm for nm, lst in plain.items() if len(lst) >= 2 and nm not in other and nm not in params]
+    if not cands:
+        return False
+    link_parents(fn)
+    try:
+        cfg = CFG(fn)
+        rd = ReachingDefs(cfg)
+    except Exception:
+        return False
+    changed = False
+    k = 0
+    for nm in cands:
+        uses = [x for x in ast.walk(fn) if isinstance(x, ast.Name) and x.id == nm and isinstance(x.ctx, ast.Load)]
+        by_def = {}
+        ok = True
+        for u in uses:
+            ds = rd.reaching(nm, u)
+            real = [d for d, v in ds if d is not None]
+            if len(real) != 1 or len(ds) != 1 or not isinstance(real[0], ast.Assign):
+                ok = False
+                break
+            by_def.setdefault(id(real[0]), []).append(u)
+        if not ok:
+            continue
+        for st in plain[nm]:
+            k += 1
+            new = '%s__s%d' % (nm, k)
+            st.targets[0].id = new
+            for u in by_def.get(id(st), []):
+                u.id = new
+        changed = True
+    return changed
+
+
 def _split_loop_vars(fn):
     """Loop variables that share a spelling across separate (not nested) loops are given one name per loop, when the name is bound
     only by for-loops and never read outside them."""
@@ -1208,6 +1336,14 @@ def _forward_subst(fn, module_exprs=None):
                 flat.extend(t.elts if isinstance(t, (ast.Tuple, ast.List)) else [t])
             return all(isinstance(t, ast.Name) for t in flat) and (st.value is None or _pure_expr(st.value))
         if isinstance(st, ast.Expr):
+            v = st.value
+            if isinstance(v, ast.Call):
+                fn_ = v.func
+                benign = (isinstance(fn_, ast.Name) and fn_.id == 'warn') or (isinstance(fn_, ast.Attribute) and isinstance(fn_.value, ast.Name) and (
+                    (fn_.value.id in ('log', 'logger', 'logging') and fn_.attr in ('debug', 'info', 'warning', 'error', 'critical')) or
+                    (fn_.value.id == 'warnings' and fn_.attr == 'warn')))
+                if benign and all(_pure_expr(a) for a in v.args) and all(_pure_expr(k.value) for k in v.keywords):
+                    return True          # a message: nothing the moved expression could depend on, nothing it could pre-empt but the message
             return _pure_expr(st.value)
         if isinstance(st, ast.If):
             return _pure_expr(st.test) and all(effect_free(x) for x in st.body + st.orelse)
@@ -1636,6 +1772,9 @@ def normal_form(fn, callee_info=None, consts=None):
         _ifexp_assign(c)
         _guard_continue(c)
         _loop_to_comprehension(c)
+        _unpack_to_subscripts(c)
+        _dead_constant_stores(c)
+        _ssa_split(c)
         _split_multi_defs(c)
         _split_loop_vars(c)
         _sink_definitions(c)
